@@ -330,6 +330,8 @@ var idents = []ident{
 	{"example.org", "Gadget", "a"},
 	{"other.org", "Thing", "a"},
 	{"example.org", "Thing", "c"},
+	// The core group: apiVersion "v1" has no group part at all.
+	{"", "Namespace", "ns1"},
 }
 
 var (
@@ -337,6 +339,22 @@ var (
 	usageNames = []string{"u0", "u1", "u2", "u3"}
 	ownerNames = []string{"o1", "o2"}
 )
+
+// versions are the served versions of the identity's kind.
+func (i ident) versions() []string {
+	if i.Group == "" {
+		return []string{"v1"}
+	}
+	return versions
+}
+
+// apiVersion renders the apiVersion string of the identity in a served version.
+func (i ident) apiVersion(ver string) string {
+	if i.Group == "" {
+		return "v1"
+	}
+	return i.Group + "/" + ver
+}
 
 func (i ident) key() verifsim.Key { return verifsim.Key{Group: i.Group, Kind: i.Kind, Name: i.Name} }
 
@@ -715,7 +733,7 @@ type usageSpec struct {
 
 func (r resRef) render() map[string]any {
 	id := idents[r.ID]
-	m := map[string]any{"apiVersion": id.Group + "/" + r.Ver, "kind": id.Kind}
+	m := map[string]any{"apiVersion": id.apiVersion(r.Ver), "kind": id.Kind}
 	if r.ByName {
 		m["resourceRef"] = map[string]any{"name": id.Name}
 	}
@@ -910,6 +928,9 @@ func (w *world) checkedDelete(actor string, key verifsim.Key, version string, po
 		return out
 	}
 	if key.GK() != usageGK {
+		if key.Group == "" && len(namers) > 0 {
+			w.rec.Labelf("delete:core-group-used-resource(protected=%v,usages=%d)", len(protectors) > 0, len(namers))
+		}
 		for _, n := range namers {
 			if n.ofVersion != version {
 				w.rec.Label("delete:other-version-than-usage")
@@ -1234,7 +1255,7 @@ func (w *world) composerGC(owner string, drop map[int]bool, version string, pipe
 	var dropped []string
 	for _, i := range w.composedBy(owner) {
 		id := idents[i]
-		refs = append(refs, corev1.ObjectReference{APIVersion: id.Group + "/" + version, Kind: id.Kind, Name: id.Name})
+		refs = append(refs, corev1.ObjectReference{APIVersion: id.apiVersion(version), Kind: id.Kind, Name: id.Name})
 		cd := composed.New(composed.FromReference(refs[len(refs)-1]))
 		if err := cc.Get(ctx, types.NamespacedName{Name: id.Name}, cd); err != nil {
 			w.fail("VERIF-INCONCLUSIVE harness: get composed: %v", err)
